@@ -274,9 +274,10 @@ struct lex_state { const char* base; unsigned idx[LEXMAX], len[LEXMAX], calls, h
 extern lex_state hv_L;
 struct ans_lexer {
     template<typename It, typename ES>
-    constexpr auto match(ctpg::match_options, ctpg::source_point, It start, It end, ES&) {
+    constexpr auto match(ctpg::match_options, ctpg::source_point sp, It start, It end, ES&) {
         unsigned pos = (unsigned)(start.ptr - hv_L.base);
-        hv_L.calls++; hv_L.hash = ((hv_L.hash << 5) | (hv_L.hash >> 27)) + pos + 0x9e3779b9u;
+        // offset AND the source point handed to the lexer go into the hash: both must be those of the position where the term is needed
+        hv_L.calls++; hv_L.hash = ((hv_L.hash << 5) | (hv_L.hash >> 27)) + pos + 0x9e3779b9u + ((unsigned)sp.line << 8) + ((unsigned)sp.column << 16);
         if (pos >= LEXMAX) { hv_L.bad = 1; return ctpg::recognized_term{}; }
         if (hv_L.idx[pos] == 0xffffu) return ctpg::recognized_term{};
         return ctpg::recognized_term(ctpg::size16_t(hv_L.idx[pos]), hv_L.len[pos]);
